@@ -476,6 +476,12 @@ def main():
     scripts = load_corpus(pid)
     n_corpus = len(scripts)
     scripts += scripts_for(pid, rng, tier)
+    # outputs are matched to scripts by id: a duplicate id would silently drop a script from the comparison
+    _seen = set()
+    for _s in scripts:
+        if _s.sid in _seen:
+            raise SystemExit("internal error: duplicate script id %s" % _s.sid)
+        _seen.add(_s.sid)
     impl = {}
     model = {}
     diffs = []
